@@ -321,7 +321,7 @@ def rank_chop(s,eps):
     R = R if R>0 else 1
     R = s.size if sc[-1]>eps**2 else R
 
-    return R
+    return int(R)
     
 def to_tt(A,N=None,eps=1e-14,rmax=100,is_sparse=False):
     """
